@@ -127,6 +127,23 @@ Definition exec_call (s : fs) (p : Z) : call_result :=
       end
   end.
 
+(* A bare command name (no path separator): os/exec looks it up in $PATH, never in
+   the working directory.  Repaired code (D25): SafeCmdExecution resolves such a
+   name with exec.LookPath first and checks and starts THAT file; when nothing is
+   found the name is still handed to the check (working directory) and the start
+   then fails in os/exec ("executable file not found in $PATH").  The pinned code
+   checked [l] (working directory) and started [in_path] unchecked. *)
+Definition exec_bare (s : fs) (l : Z) (in_path : option Z) : call_result :=
+  match in_path with
+  | Some q => exec_call s q
+  | None =>
+      match check_file s l with
+      | CkOk => StartFailed
+      | CkErr e => Refused e
+      | CkPanic => Panicked
+      end
+  end.
+
 (* the configuration-file rule, validation.go:17-35.  The three validators are
    abstracted to their verdicts; [n_cmd_sensors]/[n_cmd_fans] count the entries
    with a cmd block (containsCmdSensors / containsCmdFan). *)
@@ -160,6 +177,10 @@ Inductive op :=
 | OpExec (api : Z) (p : Z)            (* SafeCmdExecution / CmdSensor.GetValue / CmdFan.{GetPwm,SetPwm,GetRpm} /
                                          api 5: initializeSensors with a cmd sensor no curve uses *)
 | OpValidate (c : cfg_class) (p : Z)  (* configuration.Validate(p) *)
+| OpExecBare (api : Z) (l : Z) (in_path : option Z)
+                                      (* a call whose executable is a bare command name: [l] is what the name denotes
+                                         in the working directory, [in_path] the first executable file of that name in
+                                         $PATH (what exec.LookPath finds), if any *)
 | OpExecDuring (api : Z) (p : Z) (during : op).
                                       (* a call during which, WHILE the started command runs, another process
                                          performs [during]; the command then ends with a failure status *)
@@ -172,7 +193,7 @@ Fixpoint apply_op (s : fs) (o : op) : fs :=
   | OpChown p u g => match kstat s p with RFile f _ _ m => bind s f (Some (NFile u g m)) | _ => s end
   | OpSymlink l t => bind s l (Some (NLink t))
   | OpRemove p => bind s p None
-  | OpExec _ _ | OpValidate _ _ => s
+  | OpExec _ _ | OpValidate _ _ | OpExecBare _ _ _ => s
   end.
 
 Inductive event :=
@@ -183,6 +204,7 @@ Inductive event :=
 Definition event_of (s : fs) (o : op) : event :=
   match o with
   | OpExec _ p | OpExecDuring _ p _ => EvCall (exec_call s p)   (* one check, at most one start, per call *)
+  | OpExecBare _ l q => EvCall (exec_bare s l q)
   | OpValidate c p => EvValidate (validate c s p)
   | _ => EvFs
   end.
